@@ -5,6 +5,7 @@ Protocol (one line per request, ASCII):
   bytes <fg> <bg> <eff> <nc> <bytes>         ColorBytes(...)(bytes)
   cht   <n> (<fg> <bg> <eff> <nc> <text>)*n  t = CHText(*parts): str(t), t.plain_text(), strip_colors(str(t))
                                              (fg = P: the part is a plain str, not a chunk)
+  pfmt  <text>                               str(ColorFmt.get_plaintext_fmt()(text))
   strip <text>                               CHText.strip_colors(text)
   term  <text>                               diagnostic: what a terminal shows (Lean `Sgr.interp` against the
                                              oracle's Python terminal; the real code is not involved)
@@ -19,14 +20,14 @@ import re
 from harness.core import enc_str, dec_str
 
 PROPERTY = "C09"
-READY = False
+READY = True
 THEOREMS = [
     "C09.sgr_std", "C09.strip_final", "C09.strip_class",
-    "C09.mkSeq_total", "C09.valid_ok", "C09.invalid_raises", "C09.color_code",
+    "C09.mkSeq_total", "C09.valid_ok", "C09.invalid_raises", "C09.colour_domain", "C09.color_code",
     "C09.nocolor_no_esc", "C09.plain_no_esc",
-    "C09.chunk_shows", "C09.chunk_resets", "C09.text_shows",
+    "C09.chunk_shows", "C09.chunk_resets", "C09.text_shows", "C09.text_invalid",
     "C09.strip_plain", "C09.strip_chunk", "C09.strip_render", "C09.strip_text",
-    "C09.bytes_same",
+    "C09.chunks_show", "C09.bytes_same",
 ]
 RULE = ("fmt: every fg x bg pair of the 8 names, all 256 ints, all 216 cube triples, g0..g30 (each as fg and as bg), "
         "all 3^5 effect settings, malformed values (ints/tuples out of range, wrong lengths, unknown and mangled names, "
@@ -200,7 +201,9 @@ def translate(repo):
     out = ["-- GENERATED by harness/c09.py:translate from /repo/ak/color.py -- do not edit",
            "import AkVerif.Model.Sgr", "namespace Gen.C09", "open Sgr", "",
            "def sgr : SgrCfg where",
-           "  colors := [" + ", ".join("(%s, %s)" % (_chars(k), _chars(v)) for k, v in colors.items()) + "]",
+           # a dict lookup does not depend on the order of the entries: emitted in canonical order
+           "  colors := [" + ", ".join("(%s, %s)" % (_chars(k), _chars(v))
+                                       for k, v in sorted(colors.items(), key=lambda kv: (kv[1], kv[0]))) + "]",
            "  effects := [" + ", ".join("(.%s, %s)" % (e, _chars(c)) for e, c in effects) + "]",
            "  intro := " + _chars(intro), "  final := " + _chars(final), "  joiner := " + _chars(joiner),
            "  reset := " + _chars(reset), "  fgId := " + _chars(fg_id), "  bgId := " + _chars(bg_id),
@@ -305,6 +308,8 @@ def impl(case):
                 t = m.CHText(*_parts(a))
                 s = str(t)
                 out.append("ok %s %s %s" % (enc_str(s), enc_str(t.plain_text()), enc_str(m.CHText.strip_colors(s))))
+            elif op == "pfmt":
+                out.append("ok " + enc_str(str(m.ColorFmt.get_plaintext_fmt()(dec_str(a[0])))))
             elif op == "strip":
                 out.append("ok " + enc_str(m.CHText.strip_colors(dec_str(a[0]))))
             elif op == "term":
@@ -539,6 +544,9 @@ def oracle(case, replies):
                 return "plain-text: plain_text() = %r, parts were %r" % (pl, text)
             if stripped != pl:
                 return "strip: strip_colors(%r) = %r, plain_text() = %r" % (s, stripped, pl)
+        elif op == "pfmt":
+            if rep != "ok " + a[0]:
+                return "nocolor-esc: the plain-text formatter turns %r into %s" % (dec_str(a[0]), rep)
         elif op == "strip":
             s = dec_str(a[0])
             if not rep.startswith("ok "):
@@ -732,6 +740,8 @@ def gen_cases(rng, tier):
             for b in allc:
                 if rng.random() < 0.25:
                     yield _case("fmt %s %s" % (spec_tokens(a, b, rand_eff(rng)), enc_str(rand_text(rng, 3))), "fmt-pairs")
+    for _ in range(40 if not thorough else 2000):
+        yield _case("pfmt " + enc_str(rand_text(rng)), "pfmt")
     # --- CHText of several parts
     for _ in range(1500 if not thorough else 60000):
         pool = [(rand_valid_color(rng), rand_valid_color(rng), rand_eff(rng)) for _ in range(rng.randrange(1, 4))]
@@ -793,6 +803,19 @@ def search_cases(rng, tier):
                 yield _case("fmt %s %s" % (spec_tokens((a, b, c), None), enc_str("x")), "search-cube")
 
 
+def corpus():
+    """witnesses of the defect fixed by 0251bc8 (256-colour sequences were not stripped) and other fixed points"""
+    return [_case(l, "corpus") for l in [
+        "fmt i:123 N NNNNN 0 120",
+        "fmt t:1,2,3 s:103,53 NNNNN 0 120",
+        "cht 3 i:123 N NNNNN 0 97 P N NNNNN 0 98 s:82,69,68 s:103,50,51 TTTTT 0 99",
+        "cht 2 s:82,69,68 N NNNNN 0 97 s:82,69,68 N NNNNN 0 98",
+        "bytes i:123 N TNNNN 0 120",
+        "fmt s:98,111,103,117,115 N NNNNN 1 120",
+        "strip 97,27,91,51,56,58,53,58,49,50,51,109,98,27,91,48,109",
+    ]]
+
+
 # ------------------------------------------------------------------ shrinking, counting
 def _shorter(tok):
     s = dec_str(tok)
@@ -831,10 +854,22 @@ def shrink(case):
             for t in _shorter(parts[i][4]):
                 q = parts[:i] + [parts[i][:4] + [t]] + parts[i + 1:]
                 yield mk([str(n)] + [x for p in q for x in p])
-            if parts[i][0] != "P" and parts[i][2] != "NNNNN":
-                q = parts[:i] + [parts[i][:2] + ["NNNNN"] + parts[i][3:]] + parts[i + 1:]
+            if parts[i][0] == "P":
+                continue
+            cands = []
+            if parts[i][1] != "N":
+                cands.append([parts[i][0], "N"] + parts[i][2:])
+            if parts[i][0] != "N":
+                cands.append(["N"] + parts[i][1:])
+            if parts[i][2] != "NNNNN":
+                cands.append(parts[i][:2] + ["NNNNN"] + parts[i][3:])
+                for j in range(5):
+                    if parts[i][2][j] != "N":
+                        cands.append(parts[i][:2] + [parts[i][2][:j] + "N" + parts[i][2][j + 1:]] + parts[i][3:])
+            for cnd in cands:
+                q = parts[:i] + [cnd] + parts[i + 1:]
                 yield mk([str(n)] + [x for p in q for x in p])
-    elif op in ("strip", "term"):
+    elif op in ("strip", "term", "pfmt"):
         for t in _shorter(a[0]):
             yield mk([t])
 
@@ -845,6 +880,8 @@ def nontrivial(case, replies):
         return a[:3] != ["N", "N", "NNNNN"]
     if op == "cht":
         return int(a[0]) >= 2
+    if op == "pfmt":
+        return a[0] != "-"
     return "27" in a[0].split(",")
 
 
@@ -859,7 +896,8 @@ LEVEL_TEXT = ("Proved in Lean for all colour values, all effect settings and all
               "(colour table, effect codes, sequence literals, strip pattern class) are regenerated from ak/color.py on "
               "every run: a terminal (SGR interpreter written from ECMA-48/T.416) starting in default state shows every "
               "character of every chunk with exactly the requested fg/bg/effects and is in default state after every "
-              "chunk and at the end, also after CHText's merging of neighbours; strip(render) = plain text; no_color "
+              "chunk and at the end, also after CHText's merging of neighbours and for any other arrangement of chunks whose "
+              "prefix/suffix pairs come from formatters; strip(render) = plain text (also embedded in other text); no_color "
               "and plain formatters emit nothing; the bytes formatter emits the same ASCII sequences; mkSeq succeeds "
               "exactly on {8 names, 0-255, (r,g,b) in [0,5]^3 -> 16+36r+6g+b, g<digits> <= 23 -> 232+N} and raises "
               "ValueError otherwise. model = code by differential run (exhaustive over names x names, 256 ints, 216 "
